@@ -8,11 +8,20 @@
        every scheduler oracle, in each of the three execution modes, for every fuel: same kind of
        result, same blocked processes, and the printed labels of r(p) are the images under r of the
        printed labels of p, in the same order (`outcome_invariant`).
-   Hypothesis `key_faithful_on r p` (only relevant when TYPE NAMES or LABELS are renamed; trivially
-   true otherwise, see tc_chan_equivariant): EqualType keys its memo by printed types, so the printed
-   keys of the renamed types must coincide exactly when the original keys do.
+   CLOSED forms (`verdict_invariant_closed[_strong]`, `outcome_invariant_closed`): no hypothesis besides
+   admissibility and `prog_syn_ok` of the program and of its image (every type is syntactically what
+   the parser produces: names and labels are LABEL lexemes, choices are non-empty — "avoiding keywords"
+   at the level of the AST).  EqualType keys its memo by PRINTED types; that the printed keys of renamed
+   types coincide exactly when the original keys do (`key_faithful_lex`) follows from the injectivity
+   of printing on such types with proper modes (C15), and every type the checker compares has proper
+   modes because it has passed CheckTypeWellFormedness first (the invariant threaded in RenameTc.v).
+   The general forms (`verdict_invariant`, `outcome_invariant`) are for names that are ARBITRARY
+   strings and keep that fact as the hypothesis `key_faithful_on r p` (trivially true when only
+   channel identifiers or function names are renamed: tc_chan_equivariant).
    Permutations: the verdict is unchanged by permuting the type definitions and by permuting the
-   function definitions of a program (`perm_types_invariant`, `perm_funs_invariant`), and the AST that
+   function definitions of a program (`perm_types_invariant`, `perm_funs_invariant`), by permuting
+   function, PROCESS and assumed-name declarations (`perm_decls_invariant`: through the declarative
+   judgement of C07, which the checker decides; the F29 acyclicity test is permutation invariant), and the AST that
    ParseString builds does not depend on how declarations of different kinds are interleaved
    (`expand_kinds`; `exec` statements are numbered in their own relative order).
    Run-time names: Name.Equal / Name.Substitute / Form.Substitute and the receive, call and cut
@@ -20,12 +29,13 @@
    `receive_ident_irrelevant`, `call_ident_irrelevant`).
    NOT proved here: invariance under renamings of bound variables that are capture-avoiding but not
    injective on the identifiers of the whole program (`run_alpha_invariant`, a Definition), the full
-   simulation `step_sim_statement` (a Definition), permutation of process declarations. *)
+   simulation `step_sim_statement` (a Definition). *)
 From stdpp Require Import gmap strings.
 Require Import Grits.Base Grits.STypes Grits.Forms Grits.Subst Grits.Expand Grits.TcDeps Grits.TcTop Grits.Runtime.
 Require Import Grits.spec.Rename Grits.proofs.RenameTypes Grits.proofs.RenameSubst Grits.proofs.RenameTc
                Grits.proofs.RenameExt Grits.proofs.RenameRun Grits.proofs.RenameSim Grits.proofs.PermTc
-               Grits.proofs.C14Main Grits.proofs.C14Examples.
+               Grits.proofs.RenameKeys Grits.proofs.C14Main Grits.proofs.C14Closed Grits.proofs.C14Examples.
+Require Grits.spec.SynOk Grits.proofs.TypingVerdict Grits.proofs.DeclPerm Grits.proofs.VerdictInvariant.
 Require Import Coq.Sorting.Permutation.
 
 Theorem verdict_invariant : forall r p, admissible r p -> key_faithful_on r p ->
@@ -36,6 +46,34 @@ Theorem verdict_invariant_strong : forall r p, admissible r p -> key_faithful_on
   exists r', ginjective r' /\ agree r' r (program_atoms p) /\ (forall x, rp r' x = rp r x) /\
              typecheck (rn_program r p) = rn_verdict r' (typecheck p).
 Proof. exact C14Main.verdict_invariant_strong. Qed.
+
+(* ---- closed: no key hypothesis, for programs whose types are syntactically well formed *)
+Theorem verdict_invariant_closed : forall r p, admissible r p ->
+  SynOk.prog_syn_ok p = true -> SynOk.prog_syn_ok (rn_program r p) = true ->
+  verdict_class (typecheck (rn_program r p)) = verdict_class (typecheck p).
+Proof. exact C14Closed.verdict_invariant_closed. Qed.
+
+Theorem verdict_invariant_closed_strong : forall r p, admissible r p ->
+  SynOk.prog_syn_ok p = true -> SynOk.prog_syn_ok (rn_program r p) = true ->
+  exists r', ginjective r' /\ agree r' r (program_atoms p) /\ (forall x, rp r' x = rp r x) /\
+             typecheck (rn_program r p) = rn_verdict r' (typecheck p).
+Proof. exact C14Closed.verdict_invariant_closed_strong. Qed.
+
+Theorem outcome_invariant_closed : forall r p p', admissible r p ->
+  SynOk.prog_syn_ok p = true -> SynOk.prog_syn_ok (rn_program r p) = true -> typecheck p = Accept p' ->
+  exists q', typecheck (rn_program r p) = Accept q' /\
+    forall fuel pick md,
+      kind_of (run_program fuel pick md q') = kind_of (run_program fuel pick md p') /\
+      labels (final_cfg (run_program fuel pick md q')) = map (rp r) (labels (final_cfg (run_program fuel pick md p'))) /\
+      live md (p_types q') (final_cfg (run_program fuel pick md q')) = live md (p_types p') (final_cfg (run_program fuel pick md p')).
+Proof. exact C14Closed.outcome_invariant_closed. Qed.
+
+(* the printed memo keys of EqualType: renamed keys collide exactly when the original ones do *)
+Theorem key_faithful_lex : forall r, injective (rt r) -> injective (rl r) -> forall s t s' t',
+  okt (lexT r) (lexL r) pm True s -> okt (lexT r) (lexL r) pm True t ->
+  okt (lexT r) (lexL r) pm True s' -> okt (lexT r) (lexL r) pm True t' ->
+  (eq_key (rn_sty r s) (rn_sty r t) = eq_key (rn_sty r s') (rn_sty r t') <-> eq_key s t = eq_key s' t').
+Proof. exact RenameKeys.key_faithful_lex. Qed.
 
 Theorem tc_label_equivariant : forall l p, inj_on (a_label (program_atoms p)) l -> key_faithful_on (ren_labels l) p ->
   verdict_class (typecheck (rn_labels l p)) = verdict_class (typecheck p).
@@ -90,6 +128,11 @@ Theorem perm_funs_invariant : forall p fs', Permutation (p_funs p) fs' ->
   PermTc.accepts (typecheck (with_funs fs' p)) = PermTc.accepts (typecheck p).
 Proof. exact PermTc.perm_funs_invariant. Qed.
 
+(* functions, processes and assumed names in any order (types in place) *)
+Theorem perm_decls_invariant : forall p p', DeclPerm.decl_perm p p' ->
+  (TypingVerdict.accepts p <-> TypingVerdict.accepts p').
+Proof. exact VerdictInvariant.verdict_invariant_perm. Qed.
+
 Theorem expand_kinds : forall l l',
   filter is_proc l = filter is_proc l' -> filter is_fun l = filter is_fun l' -> filter is_type l = filter is_type l' ->
   filter is_assume l = filter is_assume l' -> filter is_exec l = filter is_exec l' ->
@@ -120,6 +163,11 @@ Proof. exact ex_run_async. Qed.
 
 Print Assumptions verdict_invariant.
 Print Assumptions verdict_invariant_strong.
+Print Assumptions verdict_invariant_closed.
+Print Assumptions verdict_invariant_closed_strong.
+Print Assumptions outcome_invariant_closed.
+Print Assumptions key_faithful_lex.
+Print Assumptions perm_decls_invariant.
 Print Assumptions tc_label_equivariant.
 Print Assumptions tc_chan_equivariant.
 Print Assumptions outcome_invariant.
